@@ -26,6 +26,7 @@ CONSTANTS
   CommaSeparates = FALSE
   RejectDrops = FALSE
   MayAcceptedSplits = FALSE
+  ArgAliased = FALSE
   RejAt = {0, 1, 2, 3}
   RejThen = 3
   RejEditAt = {0, 1, 2, 3}
